@@ -19,7 +19,9 @@ RULE = ('Generated list fields (whitespace- or comma-separated; values with uniq
         'breaks, leading/trailing/doubled commas, comment lines before the first value, between values and after a trailing '
         'separator, comments containing separators; placed first/middle/last among sentinel fields, with/without final '
         'newline; 1..4 edits (append/remove/replace/reference set/reference remove) per case, in both write-back modes '
-        '(formatting preserved / reformat_when_finished), optionally with a second list view open on another field.  '
+        '(formatting preserved / reformat_when_finished), optionally with a second list view open on another field, through a '
+        'fresh or one shared dict-view object, optionally after an abandoned edit session (exception inside the with block, '
+        'never closed, close that fails).  '
         'Non-trivial: multi-line layout or comment inside or irregular separators, and >= 1 edit.')
 ASSUMPTIONS = ['values never contain the separator (nor whitespace, for the whitespace list); removing the only value (documented to raise), '
                'sort and the Uploaders interpretation are outside the statement',
@@ -35,11 +37,11 @@ ANCHORS = ['debian._deb822_repro.tokens:whitespace_split_tokenizer.<func>', 'deb
            'debian._deb822_repro.parsing:Deb822ParsedTokenList._generate_reformatted_field_content',
            'debian._deb822_repro.parsing:ValueReference.remove']
 MUST_REACH = ANCHORS
-FLOORS = {'quick': {'nontrivial': 2500, 'monitors': {'M.read': 5000, 'M.noop': 5000, 'M.edit': 4000, 'M.writeback': 4000, 'K5': 4000},
+FLOORS = {'quick': {'nontrivial': 2500, 'monitors': {'M.read': 5000, 'M.noop': 5000, 'M.edit': 4000, 'M.writeback': 4000, 'M.abort': 1200, 'K5': 4000},
                     'counters': {'op:append': 1000, 'op:comment+append': 300, 'op:remove': 800, 'op:replace': 800, 'op:ref-set': 800, 'op:ref-remove': 800,
                                  'layout:first-line-blank': 200, 'layout:comment-inside': 800}},
           'thorough': {'nontrivial': 150000, 'monitors': {'M.read': 300000, 'M.noop': 300000, 'M.edit': 250000, 'M.writeback': 250000,
-                                                          'K5': 250000},
+                                                          'M.abort': 80000, 'K5': 250000},
                        'counters': {'op:append': 60000, 'op:comment+append': 18000, 'op:remove': 50000, 'op:replace': 50000, 'op:ref-set': 50000,
                                     'op:ref-remove': 50000, 'layout:first-line-blank': 12000, 'layout:comment-inside': 50000}}}
 LEVEL_TEXT = ('Runtime monitoring: seeded list-field layouts and edit histories on the live list views; reads are compared with an '
@@ -155,7 +157,8 @@ def cases(ctx):
         uid = [100]
         case = {'kind': 'list', 'comma': comma, 'field': ftxt, 'vals': vals, 'flags': flags,
                 'pos': r.choice(['mid', 'mid', 'last', 'first']), 'final_nl': r.random() < .7,
-                'reformat': r.random() < .3, 'key': r.choice(['F', 'F', 'f']), 'ops': gen_ops(r, comma, len(vals), uid)}
+                'reformat': r.random() < .3, 'key': r.choice(['F', 'F', 'f']), 'ops': gen_ops(r, comma, len(vals), uid),
+                'shared_view': r.random() < .5, 'abort': r.choice([None, None, None, 'exception', 'unclosed', 'failed-close'])}
         if r.random() < .2:
             c2 = r.random() < .5
             g, gv, _ = gen_layout(r, c2, name='G')
@@ -174,6 +177,10 @@ def setup(ctx):
 
 def finish(ctx):
     contracts.flush_evals(ctx)
+
+
+class _Abandon(Exception):
+    """Raised by the harness inside a `with` block to abandon an edit session."""
 
 
 def _blank_first_line(ftxt, comma):
@@ -221,10 +228,16 @@ def run_case(ctx, case):
     key = case.get('key', 'F')
     f = parse_deb822_file(txt.splitlines(True))
     p = next(iter(f))
+    # one dict-view object serves the whole case when case['shared_view'] (a view must not carry state from one
+    # access to the next); otherwise every access takes a fresh view
+    shared = p.as_interpreted_dict_view(interp) if case.get('shared_view') else None
+
+    def view():
+        return shared if shared is not None else p.as_interpreted_dict_view(interp)
     # --- (i) read
     ctx.mon('M.read')
     try:
-        with p.as_interpreted_dict_view(interp)[key] as l:
+        with view()[key] as l:
             got = list(l)
     except Exception as e:
         k = _classify_read_failure(case, e) or 'list-view-read-raises/%s' % type(e).__name__
@@ -241,6 +254,56 @@ def run_case(ctx, case):
     if f.dump() != txt:
         ctx.violation('open-close-without-change-modified-document', 'before %r after %r' % (txt, f.dump()))
         return
+    # --- (ii') an ABANDONED edit session leaves no trace: not in the document, not in the next view of the field
+    abort = case.get('abort')
+    if abort:
+        ctx.count('abort:' + abort)
+        ctx.mon('M.abort')
+        try:
+            if abort == 'exception':
+                try:
+                    with view()[key] as l:
+                        l.append('ABORTED1')
+                        if len(vals) > 1:
+                            l.remove(vals[0])
+                        raise _Abandon()
+                except _Abandon:
+                    pass
+            elif abort == 'unclosed':
+                l = view()[key]
+                l.append('ABORTED2')
+                del l
+            elif abort == 'failed-close':
+                try:
+                    with view()[key] as l:
+                        for v in list(l):
+                            l.remove(v)         # an empty field cannot be written back: close must fail
+                except _Abandon:
+                    raise
+                except Exception:
+                    pass
+            now = f.dump()
+            if abort != 'failed-close' and now != txt:
+                ctx.violation('abandoned-edit-session-modified-document', '%s: before %r after %r' % (abort, txt, now))
+                return
+            if now == txt:
+                with view()[key] as l:
+                    got = list(l)
+                if got != vals:
+                    ctx.violation('abandoned-edit-session-leaks-into-next-view', '%s: field %r: next view shows %r, field text says %r'
+                                  % (abort, ftxt, got, vals))
+                    return
+                if f.dump() != txt:
+                    ctx.violation('open-close-after-abandoned-edit-modified-document', '%s: before %r after %r' % (abort, txt, f.dump()))
+                    return
+            else:
+                return      # a failed close that nevertheless changed the text: nothing further is demanded of this case
+        except _Abandon:
+            raise
+        except Exception as e:
+            ctx.violation(_classify_edit_failure(case, e) or 'abandoned-edit-raises/%s' % type(e).__name__,
+                          '%s on field %r: %r' % (abort, ftxt, e))
+            return
     if not case['ops']:
         return
     # --- (iii) edit history against a list model
@@ -248,7 +311,7 @@ def run_case(ctx, case):
     model2 = list(second['vals']) if second else None
     step = -1
     try:
-        v1 = p.as_interpreted_dict_view(interp)[key]
+        v1 = view()[key]
         v2 = p.as_interpreted_dict_view(CM if second['comma'] else SP)['G'] if second else None
         with v1 as l:
             if v2 is not None:
